@@ -56,6 +56,8 @@ type OutputStream struct {
 	db       *leveldb.DB
 	batch    leveldb.Batch
 	lastseen messageBatch
+	// closed is set by Close(): no message will ever be added anymore.
+	closed bool
 
 	cacheMu       sync.RWMutex
 	messagesCache map[uint64]*messageBatch
@@ -91,6 +93,18 @@ func NewOutputStream(tmpdir string) (*OutputStream, error) {
 }
 
 func (o *OutputStream) Close() error {
+	o.messagesMu.Lock()
+	defer o.messagesMu.Unlock()
+	// GetNext() calls which are waiting for the next message would wait
+	// forever: nothing is added to a closed stream (FSM.Restore replaces the
+	// stream while GetMessages requests are being served). Wake them up;
+	// they return an empty result and their caller picks up the new stream.
+	o.closed = true
+	o.newMessage.Broadcast()
+	return o.closeLocked()
+}
+
+func (o *OutputStream) closeLocked() error {
 	if o.db == nil {
 		return nil
 	}
@@ -107,9 +121,10 @@ func (os *OutputStream) reset() error {
 	os.messagesMu.Lock()
 	defer os.messagesMu.Unlock()
 
-	if err := os.Close(); err != nil {
+	if err := os.closeLocked(); err != nil {
 		return err
 	}
+	os.closed = false
 
 	dirname, err := ioutil.TempDir(os.tmpdir, "tmp-outputstream-")
 	if err != nil {
@@ -242,6 +257,10 @@ func (os *OutputStream) GetNext(ctx context.Context, lastseen robust.Id) []Messa
 	// find a more recent message.
 
 	os.messagesMu.RLock()
+	if os.closed {
+		os.messagesMu.RUnlock()
+		return []Message{}
+	}
 	current, ok := os.getUnlocked(uint64(lastseen.Id))
 	if ok && current.NextID < math.MaxUint64 {
 		next, okNext := os.getUnlocked(current.NextID)
@@ -285,6 +304,10 @@ func (os *OutputStream) GetNext(ctx context.Context, lastseen robust.Id) []Messa
 	waitBehind := uint64(current.Messages[0].Id.Id)
 	os.messagesMu.Lock()
 	for {
+		if os.closed {
+			os.messagesMu.Unlock()
+			return []Message{}
+		}
 		var next *messageBatch
 		current, ok = os.getUnlocked(waitBehind)
 		if ok {
@@ -375,6 +398,9 @@ func (os *OutputStream) getUnlocked(id uint64) (*messageBatch, bool) {
 func (os *OutputStream) Get(input robust.Id) ([]Message, bool) {
 	os.messagesMu.RLock()
 	defer os.messagesMu.RUnlock()
+	if os.closed {
+		return nil, false
+	}
 
 	mb, ok := os.getUnlocked(uint64(input.Id))
 	if !ok {
